@@ -388,6 +388,22 @@ def run(ctx):
             f = 'exception-expm: %s' % (type(ex).__name__ + ':' + str(ex)[:100])
         if f:
             ctx.report(c, 'failure', f)
+    # expm_higham_2005 with MANY coefficients at small base points (the [m/m] approximant chosen from the norm alone agrees with exp
+    # through degree 2m only: the method must take the degree of the polynomial into account)
+    for D_, amp in ((8, 0.0), (8, 0.01), (10, 0.0), (12, 0.2), (6, 0.005)):
+        n = rng.randint(1, 2)
+        x = rand_coeffs(rng, (D_, 1, n, n), -0.5, 0.5)
+        a = rand_coeffs(rng, (n, n), -1, 1) + np.eye(n)
+        x[0, 0] = a / np.linalg.norm(a, 1) * amp
+        c = {'op': 'expm', 'D': D_, 'P': 1, 'q': 'higham', 'x': x}
+        ctx.evaluations += 1
+        ctx.count('op=expm:higham-many-coefficients')
+        try:
+            f = check(ctx, c)
+        except Exception as ex:
+            f = 'exception-expm: %s' % (type(ex).__name__ + ':' + str(ex)[:100])
+        if f:
+            ctx.report(c, 'failure', f)
     # the Pade tables: `_expm_pade<q>` on 1x1 arguments against the model's U, V (the theorems `expm_pade_tables_match_exp` talk
     # about exactly these tables and this even/odd evaluation)
     for q in (3, 5, 7, 9, 13):
